@@ -21,7 +21,9 @@ ASSUMPTIONS = ["terms are simple-label terms; feature labels distinct within a l
 
 def execute(case):
     WORK.mkdir(parents=True, exist_ok=True)
-    return ac.run_cycles(case, WORK)
+    out = ac.run_cycles(case, WORK)
+    out.pop("traces", None)
+    return out
 
 def random_cases(rng, tier):
     """random object graphs an order of magnitude larger than the enumerated worlds"""
